@@ -19,3 +19,147 @@ encode_length_old = Contract(
     props=('C09', 'C08'))
 
 CONTRACTS = [encode_length_new, encode_length_old]
+
+# ---------------------------------------------------------------------------------------------------
+# Header.length setter on octets (consumes its input in place)
+PKT_HDR = 'pgpy.packet.types.Header'
+
+
+def hdr(lenfmt, llen=Const(1), length=Const(1), **extra):
+    f = {'_lenfmt': lenfmt, '_llen': llen, '_len': length, '_partial': Const(False)}
+    f.update(extra)
+    return Obj(PKT_HDR, f)
+
+
+length_bin_new = Contract(
+    'C09/Header.length_bin[new,non-partial]', 'pgpy.types.Header.length_bin',
+    params={'self': hdr(Const(1)), 'val': Bytes(1, None, kind='bytearray')},
+    requires='not lengths.is_partial(val[0]) and len(val) >= lengths.decode_new_size(val)',
+    ensures=[('value', 'self._len == lengths.decode_new_value(old_val)'),
+             ('consumed', 'val == old_val[lengths.decode_new_size(old_val):]')],
+    props=('C09', 'C08'))
+
+length_bin_old = Contract(
+    'C09/Header.length_bin[old]', 'pgpy.types.Header.length_bin',
+    params={'self': hdr(Const(0), llen=Choice(1, 2, 4)), 'val': Bytes(0, None, kind='bytearray')},
+    requires='len(val) >= self._llen',
+    ensures=[('value', 'self._len == b2i(old_val[:self._llen])'),
+             ('consumed', 'val == old_val[self._llen:]')],
+    props=('C09', 'C08'))
+
+llen_new = Contract(
+    'C09/Header.llen[new]', 'pgpy.types.Header.llen',
+    params={'self': hdr(Const(1), llen=Choice(0, 1, 2, 4), length=Int(0, U32))},
+    ensures=[('size', 'result == lengths.new_length_size(self._len)')],
+    props=('C09', 'C08'))
+
+llen_old = Contract(
+    'C09/Header.llen[old]', 'pgpy.types.Header.llen',
+    params={'self': hdr(Const(0), llen=Choice(0, 1, 2, 4), length=Int(0, U32))},
+    ensures=[('never-narrower-than-the-value-needs', 'result == lengths.old_width(self._llen, self._len)')],
+    props=('C09', 'C08'))
+
+pkt_header_bytes = Contract(
+    'C09/packet.Header.__bytearray__', 'pgpy.packet.types.Header.__bytearray__',
+    params={'self': hdr(Choice(0, 1), llen=Choice(0, 1, 2, 4), length=Int(0, U32), _tag=Int(0, 63))},
+    requires='self._lenfmt == 1 or self._tag < 16',
+    ensures=[('rfc4880-4.2', 'result == lengths.packet_header(self._lenfmt, self._tag, self._len, self._llen)')],
+    props=('C09', 'C08'))
+
+pkt_header_len = Contract(
+    'C09/packet.Header.__len__', 'pgpy.packet.types.Header.__len__',
+    params={'self': hdr(Choice(0, 1), llen=Choice(0, 1, 2, 4), length=Int(0, U32), _tag=Int(0, 63))},
+    requires='self._lenfmt == 1 or self._tag < 16',
+    ensures=[('len', 'result == len(lengths.packet_header(self._lenfmt, self._tag, self._len, self._llen))')],
+    props=('C09', 'C08'))
+
+pkt_header_parse = Contract(
+    'C09/packet.Header.parse[non-partial]', 'pgpy.packet.types.Header.parse',
+    params={'self': hdr(Const(1), _tag=Const(0)), 'packet': Bytes(1, None, kind='bytearray', first=(128, 255))},
+    requires='lengths.header_complete(packet) and not lengths.header_partial(packet)',
+    ensures=[('format', 'self._lenfmt == ((old_packet[0] >> 6) & 1)'),
+             ('tag', 'self._tag == lengths.header_tag(old_packet[0])'),
+             ('length', 'self._len == lengths.header_body_length(old_packet)'),
+             ('consumed', 'packet == old_packet[lengths.header_size(old_packet):]')],
+    props=('C09', 'C08'))
+
+CONTRACTS += [length_bin_new, length_bin_old, llen_new, llen_old, pkt_header_bytes, pkt_header_len, pkt_header_parse]
+
+# ---------------------------------------------------------------------------------------------------
+# signature subpacket header (5.2.3.1): no partial lengths exist for subpackets
+SUB_HDR = 'pgpy.packet.subpackets.types.Header'
+
+
+def subhdr(**f):
+    base = {'_lenfmt': Const(1), '_llen': Const(1), '_len': Const(1), '_partial': Const(False), '_typeid': Const(-1), '_critical': Const(False)}
+    base.update(f)
+    return Obj(SUB_HDR, base)
+
+
+sub_header_parse = Contract(
+    'C09/subpackets.Header.parse', 'pgpy.packet.subpackets.types.Header.parse',
+    params={'self': subhdr(), 'packet': Bytes(2, None, kind='bytearray')},
+    requires='len(packet) >= lengths.sub_decode_size(packet) + 1',
+    ensures=[('length-5.2.3.1', 'self._len == lengths.sub_decode_value(old_packet)'),
+             ('type', 'self._typeid == old_packet[lengths.sub_decode_size(old_packet)] % 128'),
+             ('critical', 'self._critical == (old_packet[lengths.sub_decode_size(old_packet)] >= 128)'),
+             ('consumed', 'packet == old_packet[lengths.sub_decode_size(old_packet) + 1:]')],
+    props=('C09', 'C08', 'C05'))
+
+sub_header_bytes = Contract(
+    'C09/subpackets.Header.__bytearray__', 'pgpy.packet.subpackets.types.Header.__bytearray__',
+    params={'self': subhdr(_len=Int(0, U32), _typeid=Int(0, 127), _critical=Bool())},
+    ensures=[('length-decodes-back', 'lengths.sub_decode_value(result) == self._len'),
+             ('size', 'len(result) == lengths.sub_decode_size(result) + 1'),
+             ('type-octet', 'result[len(result) - 1] == (128 if self._critical else 0) + self._typeid')],
+    props=('C09', 'C08'))
+
+sub_header_len = Contract(
+    'C09/subpackets.Header.__len__', 'pgpy.packet.subpackets.types.Header.__len__',
+    params={'self': subhdr(_len=Int(0, U32), _typeid=Int(0, 127), _critical=Bool())},
+    ensures=[('len', 'result == lengths.new_length_size(self._len) + 1')],
+    props=('C09', 'C08'))
+
+# ---------------------------------------------------------------------------------------------------
+# multiprecision integers (3.2)
+MPI = 'pgpy.packet.types.MPI'
+mpi_encode = Contract(
+    'C09/MPI.to_mpibytes', 'pgpy.packet.types.MPI.to_mpibytes',
+    params={'self': Obj(MPI, {}, intvalue=Int(0, None))},
+    requires='bitlen(self) < 65536',
+    ensures=[('rfc4880-3.2', 'result == mpi.mpi_encode(self)')],
+    props=('C09', 'C08', 'C18'))
+
+mpi_len = Contract(
+    'C09/MPI.__len__', 'pgpy.packet.types.MPI.__len__',
+    params={'self': Obj(MPI, {}, intvalue=Int(0, None))},
+    requires='bitlen(self) < 65536',
+    ensures=[('len', 'result == mpi.mpi_size(self)')],
+    props=('C09', 'C08', 'C18'))
+
+mpi_decode = Contract(
+    'C09/MPI.__new__[octets]', 'pgpy.packet.types.MPI.__new__',
+    params={'cls': Const(None), 'num': Bytes(2, None, kind='bytearray')},
+    requires='len(num) >= 2 + mpi.mpi_body_len(num)',
+    ensures=[('value', 'result == b2i(old_num[2:2 + mpi.mpi_body_len(old_num)])'),
+             ('consumed', 'num == old_num[2 + mpi.mpi_body_len(old_num):]')],
+    native_call=lambda nat: __import__('pgpy').packet.types.MPI(nat['num']),
+    props=('C09', 'C08'))
+
+# ---------------------------------------------------------------------------------------------------
+# S2K iteration count (3.7.1.3)
+S2K = 'pgpy.packet.fields.String2Key'
+s2k_count = Contract(
+    'C09/String2Key.count', 'pgpy.packet.fields.String2Key.count',
+    params={'self': Obj(S2K, {'_count': Int(0, 255)})},
+    ensures=[('rfc4880-3.7.1.3', 'result == s2k.decode_count(self._count)')],
+    props=('C09', 'C12'))
+
+s2k_count_set = Contract(
+    'C09/String2Key.count_int', 'pgpy.packet.fields.String2Key.count_int',
+    params={'self': Obj(S2K, {'_count': Const(0)}), 'val': Int(-1000, 1000)},
+    ensures=[('stored', 'self._count == val')],
+    raises={'ValueError': 'val < 0 or val > 255'},
+    props=('C09', 'C12'))
+
+CONTRACTS += [sub_header_parse, sub_header_bytes, sub_header_len, mpi_encode, mpi_len, mpi_decode, s2k_count, s2k_count_set]
